@@ -140,6 +140,7 @@ impl Property for NatProp {
                 o.aim_w = [40, 6, 2, 2, 6, 6, 4, 1, 1];
                 o.allow_fs = true;
                 o.mutate16 = 1;
+                o.raw_modrm16 = 6;
                 o
             }
             Which::C06 => GenOpts::faulty(eng.form_indices(|f| f.class != Class::Os && in_floor(f) && !insn::vendor_divergent(f.code))),
@@ -519,6 +520,26 @@ impl Property for NatProp {
                         for cl in shape_classes(&d.ins) {
                             out = out.class(cl);
                         }
+                        if let Some(i) = c.note.find("raw-modrm ") {
+                            // mod / SIB-base class / index class of the byte-level emitter (redundant encodings included)
+                            let sh = c.note[i + 10..].split(' ').next().unwrap_or("");
+                            let parts: Vec<&str> = sh.split('-').collect();
+                            let mut label = String::from("raw:");
+                            label.push_str(parts.first().copied().unwrap_or(""));
+                            if parts.get(1) == Some(&"sib") {
+                                label.push_str("-sib");
+                                for p in &parts[2..] {
+                                    if *p == "bnone" || *p == "inone" {
+                                        label.push('-');
+                                        label.push_str(p);
+                                    }
+                                }
+                            }
+                            if sh.contains("riprel") {
+                                label.push_str("-riprel");
+                            }
+                            out = out.class(label).class("raw-modrm");
+                        }
                     }
                     _ => {}
                 }
@@ -544,7 +565,7 @@ impl Property for NatProp {
             Which::C02 => vec!["flags:preserving-form".into(), "flags:modifying-form".into(), "shift:masked-count-0".into(), "shift:count-1".into(), "shift:count>=width".into()],
             Which::C03 => vec!["branch:taken".into(), "branch:not-taken".into()],
             Which::C04 => vec!["program".into(), "program:stack+rsp-relative".into(), "deviation:matches-bias-model".into()],
-            Which::C05 => vec!["seg:gs".into(), "seg:fs-twin".into(), "addr32".into(), "base:rip".into(), "sib:index".into(), "moffs".into()],
+            Which::C05 => vec!["seg:gs".into(), "seg:fs-twin".into(), "addr32".into(), "base:rip".into(), "sib:index".into(), "moffs".into(), "raw:mod0".into(), "raw:mod1".into(), "raw:mod2".into(), "raw:mod0-sib-bnone".into(), "raw:mod1-sib-inone".into(), "raw:mod0-riprel".into()],
             Which::C06 => vec!["verdict:both-complete".into(), "verdict:both-refuse".into()],
         }
     }
